@@ -128,6 +128,31 @@ def fjsp_gen_params(rng, kind, big=False):
     return gp
 
 
+def fjsp_long_params(rng, kind):
+    """processing times on a fine time scale: the clock crosses the library's "not scheduled yet" marker INIT_FINISH = 9999
+    (legal generator parameters; benchmark files in seconds look like this)"""
+    gp = {"num_jobs": rng.randint(3, 4), "num_machines": 2, "min_ops_per_job": 2, "max_ops_per_job": 3,
+          "min_processing_time": rng.choice([2500, 3000]), "max_processing_time": rng.choice([4000, 6000])}
+    if kind == "jssp":
+        gp["one2one_ma_map"] = False
+    return gp
+
+
+def fjsp_short_copy(rng, inst):
+    """the same job/machine structure with small processing times: finishes long before a long-horizon batch-mate"""
+    return {"start": list(inst["start"]), "end": list(inst["end"]), "pad": list(inst["pad"]),
+            "proc": [[(1 + (v + 3 * k) % 5) if v > 0 else 0 for k, v in enumerate(r)] for r in inst["proc"]]}
+
+
+def fjsp_sentinel_rows():
+    """hand-built 2 jobs x 2 machines (one eligible machine per op, so JSSP too): job 0 = (M0, 4999) then (M1, 5000), job 1 = (M1, 7).
+    Row 0: the last operation finishes EXACTLY at 9999 = INIT_FINISH; row 1: all times doubled (finishes at 19998, beyond the
+    marker); row 2: a short row (finishes at 12) that idles on padding steps meanwhile."""
+    def mk(a, b, c):
+        return {"start": [0, 2], "end": [1, 2], "proc": [[a, 0, 0], [0, b, c]], "pad": [False, False, False]}
+    return [mk(4999, 5000, 7), mk(9998, 10000, 14), mk(5, 7, 3)]
+
+
 def fjsp_trim(inst):
     """the same instance without its trailing padded columns (what a solo run of a smaller instance looks like)"""
     n = sum(1 for p in inst["pad"] if not p)
@@ -613,8 +638,45 @@ def sched_streams(ctx, rng, torch, scale, coll, prefix):
                     if len(set(nops)) > 1:
                         ctx.count("%s_%s_batches_with_unequal_op_counts" % (prefix, kind))
                     res["fjsp"].append((kind, mno, out))
+    # ---- FJSP / JSSP long-horizon: the clock passes INIT_FINISH = 9999 while a short batch-mate idles on padding steps, and
+    #      hand-built rows finishing exactly at / far beyond the marker
+    for kind in ("fjsp", "jssp"):
+        for mno in (True, False):
+            for rep in range(max(1, scale // 4)):
+                gp = fjsp_long_params(rng, kind)
+                torch.manual_seed(rng.randrange(2 ** 31))
+                env = fjsp_env(kind, mno, gp)
+                td0 = env.generator(batch_size=[2])
+                gen = [F._inst_of_td(td0, b) for b in range(2)]
+                rows = [gen[0], fjsp_short_copy(rng, gen[1]), gen[1]]
+                rng.shuffle(rows)
+                batches = [rows, fjsp_sentinel_rows()]
+                for brow in batches:
+                    out = fjsp_rollout(torch, env, fjsp_td(torch, brow), rng, None, [rng.choice(pols) for _ in brow], rng.randint(0, 2))
+                    ctx.count("%s_%s_long_horizon_batches" % (prefix, kind))
+                    if fjsp_py_c02(kind, mno, out, coll):
+                        if out["finals"]:
+                            ctx.count("%s_%s_rows_with_finish_time_at_or_beyond_9999" % (prefix, kind),
+                                      sum(1 for f, i_ in zip(out["finals"], out["insts"])
+                                          if any(v >= 9999 for v, pd in zip(f["finish"], i_["pad"]) if not pd)))
+                        res["fjsp"].append((kind, mno, out))
     # ---- FFSP
     envs = {}
+    # far side of FFSP's "empty cell" marker -999999: one job, two machines per stage; machine 0 of each stage is the one the sweep
+    # reaches first (so the one used), the unused machine 1 carries durations far larger than the makespan (and a second row
+    # with long used durations, a third ordinary one)
+    for rep in range(max(1, scale // 4)):
+        S_ = rng.randint(1, 3)
+        key = (1, S_, 2)
+        if key not in envs:
+            envs[key] = ffsp_env(1, S_, 2, True)
+        far = [[rng.randint(1, 4) if k % 2 == 0 else rng.choice([50000, 400000, 900000]) for k in range(2 * S_)]]
+        longrow = [[rng.randint(60, 150) if k % 2 == 0 else 2 for k in range(2 * S_)]]
+        recs = G.ffsp_episode(envs[key], [far, longrow, G._rand_rt(rng, 1, 2 * S_, 1, 4)], ["nowait", "uniform", "uniform"], rng)
+        for rec in recs:
+            rec["kind"] = "batch"
+        ctx.count("%s_ffsp_batches_with_durations_beyond_the_makespan_on_unused_cells" % prefix)
+        res["ffsp"] += ffsp_py_c02(recs, coll)
     for rep in range(2 * scale):
         J, S_, M = rng.randint(2, 4), rng.choice([1, 2, 2, 3]), rng.randint(1, 2)
         key = (J, S_, M)
